@@ -39,16 +39,75 @@ def strip_comment(line):
     return line if i < 0 else line[:i]
 
 
+_LIT = re.compile(r"'(\\\\.|[^'\\\\])'|\"(\\\\.|[^\"\\\\])*\"")
+
+
+def gated_lines(lines, whole_file_gated):
+    """set of 1-based line numbers that are compiled only with `--cfg rb_verif`: the item (block up to its closing brace, or
+    the single statement) that follows a `#[cfg(rb_verif)]` attribute.  Brace counting on code with literals stripped."""
+    if whole_file_gated:
+        return set(range(1, len(lines) + 1))
+    g = set()
+    pending = False
+    depth = None     # brace depth inside a gated block
+    for ln, raw in enumerate(lines, 1):
+        code = _LIT.sub("", strip_comment(raw))
+        st = code.strip()
+        if depth is not None:
+            g.add(ln)
+            depth += code.count("{") - code.count("}")
+            if depth <= 0:
+                depth = None
+            continue
+        if st.startswith("#[cfg(rb_verif)]"):
+            pending = True
+            g.add(ln)
+            rest = st[len("#[cfg(rb_verif)]"):].strip()
+            if not rest:
+                continue
+            st = rest; code = rest
+        if pending:
+            if not st or st.startswith("#["):
+                g.add(ln)
+                continue          # further attributes of the same item
+            g.add(ln)
+            pending = False
+            d = code.count("{") - code.count("}")
+            if d > 0:
+                depth = d
+    return g
+
+
+def gated_files():
+    """files that are modules declared under `#[cfg(rb_verif)] pub mod x;`"""
+    out = set()
+    src = os.path.join(vlib.REPO, "src")
+    for dp, dn, fn in os.walk(src):
+        for f in fn:
+            if not f.endswith(".rs"):
+                continue
+            lines = open(os.path.join(dp, f), encoding="utf-8", errors="replace").read().split("\n")
+            for i, l in enumerate(lines[:-1]):
+                if l.strip() == "#[cfg(rb_verif)]":
+                    m = re.match(r"\s*pub\s+mod\s+(\w+)\s*;", lines[i + 1])
+                    if m:
+                        out.add(os.path.normpath(os.path.join(dp, m.group(1) + ".rs")))
+    return out
+
+
 def scan():
     src = os.path.join(vlib.REPO, "src")
     sites = []
+    gfiles = gated_files()
     for dp, dn, fn in os.walk(src):
         for f in sorted(fn):
             if not f.endswith(".rs"):
                 continue
             path = os.path.join(dp, f)
             rel = os.path.relpath(path, vlib.REPO)
-            for ln, line in enumerate(open(path, encoding="utf-8", errors="replace"), 1):
+            lines = open(path, encoding="utf-8", errors="replace").read().split("\n")
+            gl = gated_lines(lines, os.path.normpath(path) in gfiles)
+            for ln, line in enumerate(lines, 1):
                 code = strip_comment(line)
                 if not code.strip():
                     continue
@@ -61,7 +120,7 @@ def scan():
                             continue
                         if rel.endswith("ot_map.rs") or "feature_infos" in code:
                             continue
-                    sites.append({"file": rel, "kind": kind, "text": " ".join(code.split()), "line": ln})
+                    sites.append({"file": rel, "kind": kind, "text": " ".join(code.split()), "line": ln, "gated": ln in gl})
     return sites
 
 
@@ -76,20 +135,26 @@ def load_registry():
 
 
 def check(ctx=None):
-    """compare the regenerated scan with the registry; unknown sites are reported as a broken premise"""
+    """compare the regenerated scan with the registry.  A site compiled in a NORMAL build (outside `#[cfg(rb_verif)]` items)
+    that is not registered is reported as a broken premise; a registered site that moved from gated to ungated as well.
+    Unregistered sites inside rb_verif-gated hook code are only listed (they do not exist in a normal build)."""
     reg = load_registry()
-    known = {}
+    known = {}          # key -> set of registered `gated` values
     for s in reg["sites"]:
-        known[key(s)] = s
+        known.setdefault(key(s), set()).add(bool(s.get("gated")))
     found = scan()
-    unknown = [s for s in found if key(s) not in known]
-    gone = [s for k, s in known.items() if k not in {key(x) for x in found}]
+    # an ungated site needs an ungated registration (a registration of gated hook code with the same text does not count)
+    unknown = [s for s in found if not s["gated"] and False not in known.get(key(s), set())]
+    new_gated = [s for s in found if s["gated"] and key(s) not in known]
+    fk = {key(x) for x in found}
+    gone = [s for s in reg["sites"] if key(s) not in fk]
     kinds = {}
     for s in found:
-        kinds[s["kind"]] = kinds.get(s["kind"], 0) + 1
+        k = s["kind"] + ("(rb_verif)" if s["gated"] else "")
+        kinds[k] = kinds.get(k, 0) + 1
     if ctx is not None:
         ctx.cov["inventory_sites"] = {"total": len(found), "by_kind": kinds, "unregistered": len(unknown),
-                                      "registered_but_gone": len(gone)}
+                                      "unregistered_in_rb_verif_hooks": len(new_gated), "registered_but_gone": len(gone)}
         if unknown:
             ctx.broken.append({"stage": "inventory", "module": "inventory/sites.json",
                                "log_tail": "source sites outside the registry (possible hidden shared / surviving state): "
@@ -99,7 +164,7 @@ def check(ctx=None):
 
 WHY = {
     "unsafe": "unsafe impl bytemuck::{Zeroable,Pod} for a #[repr(C)] plain-data struct (no unsafe block or fn in the crate)",
-    "atomic": "rb_verif-gated switch of the verification hooks (src/hb/verif.rs), not compiled in a normal build",
+    "atomic": "REVIEW: an atomic outside rb_verif-gated code",
     "static": "immutable static (no interior mutability): read-only table",
     "cell": "Cell view of the exclusively borrowed buffer.info inside one call (Cell::from_mut on &mut), nothing shared "
             "between calls or threads",
@@ -114,10 +179,12 @@ if __name__ == "__main__":
         out = []
         seen = set()
         for s in found:
-            if key(s) in seen:
+            if key(s) + (s["gated"],) in seen:
                 continue
-            seen.add(key(s))
-            out.append({"file": s["file"], "kind": s["kind"], "text": s["text"], "why": WHY.get(s["kind"], "REVIEW")})
+            seen.add(key(s) + (s["gated"],))
+            why = ("rb_verif-gated verification hook code: not compiled in a normal build" if s["gated"]
+                   else WHY.get(s["kind"], "REVIEW"))
+            out.append({"file": s["file"], "kind": s["kind"], "text": s["text"], "gated": s["gated"], "why": why})
         json.dump({"_comment": "registry of reviewed sites, regenerate with tools/inventory.py --write and review the diff",
                    "sites": out}, open(REG, "w"), indent=1)
         print("wrote", len(out), "sites")
